@@ -285,7 +285,7 @@ static U64Vec g_dom;
 static void ph_disk(void *u) {
     uint64_t idx = 0;
     for (size_t i = 0; i < g_dom.n; i++)
-        for (int k = 1; k <= (mc_thorough ? 5 : 4); k++)
+        for (int k = 1; k <= (mc_thorough ? 7 : 5); k++)
             for (int wd = 0; wd < 2; wd++, idx++) {
                 if (!mc_mine(idx)) continue;
                 if (mc_expired()) return;
@@ -309,21 +309,21 @@ static void ph_compact(void *u) {
     uint64_t idx = 0;
     for (size_t i = 0; i < g_dom.n; i++)
         for (int kind = 0; kind < 7; kind++)
-            for (int depth = 1; depth <= 4; depth++, idx++) {
+            for (int depth = 1; depth <= (mc_thorough ? 5 : 4); depth++, idx++) {
                 if (!mc_mine(idx)) continue;
                 if (mc_expired()) return;
                 MC_RUN(OP_COMPACT, I(kind), H(g_dom.v[i]), I(depth));
             }
 }
-static int g_polyanchors[64], g_npa;
+static int g_polyanchors[160], g_npa;
 static void ph_poly(void *u) {
-    static const int shapes[] = {1, 4, 6, 8, 9}, ress[] = {1, 3, 5, 7, 0, 2, 4, 9};
+    static const int shapes[] = {1, 4, 6, 8, 9, 0, 2, 3, 5, 7, 10}, ress[] = {1, 3, 5, 7, 0, 2, 4, 9, 6, 8, 11, 13, 15};
     static const uint32_t flagsE[] = {0, 1, 2, 3, 4, 0x10};
     uint64_t idx = 0;
     for (int ai = 0; ai < g_npa; ai++)
-        for (int si = 0; si < 5; si++)
-            for (int sc = 1; sc <= 2; sc++)
-                for (int ri = 0; ri < (mc_thorough ? 8 : 6); ri++)
+        for (int si = 0; si < (mc_thorough ? 11 : 6); si++)
+            for (int sc = (mc_thorough ? 0 : 1); sc <= 2; sc++)
+                for (int ri = 0; ri < (mc_thorough ? 13 : 8); ri++)
                     for (int fn = 0; fn < 3; fn++)
                         for (int fi = 0; fi < (fn == 0 ? 1 : 6); fi++, idx++) {
                             if (!mc_mine(idx)) continue;
@@ -335,15 +335,15 @@ int main(int argc, char **argv) {
     mc_init(argc, argv);
     mc_level = "fault_enumeration";
     poly_build_anchors();
-    for (int an = 0; an < poly_nanchor && g_npa < 64; an++) {
+    for (int an = 0; an < poly_nanchor && g_npa < 160; an++) {
         int k = poly_anchor_kind[an];
-        if (k == 1 || (k == 0 && an % (mc_thorough ? 4 : 12) == 0) || (k == 5 && an % 3 == 0) || (k == 2 && an % (mc_thorough ? 25 : 80) == 0)) g_polyanchors[g_npa++] = an;
+        if (k == 1 || (k == 0 && an % (mc_thorough ? 3 : 6) == 0) || (k == 5 && an % 3 == 0) || (k == 2 && an % (mc_thorough ? 15 : 40) == 0) || ((k == 3 || k == 4 || k == 6) && an % (mc_thorough ? 2 : 5) == 0)) g_polyanchors[g_npa++] = an;
     }
-    snprintf(mc_bounds, sizeof mc_bounds, "fault bound: every single index, every persistent-from index, every pair (n<=14); disks: CLOSE(pentagons,2)+hexagons at res {0,1,2,5,9,13%s} x k 1..4(5) x distances NULL/non-NULL; "
-             "areNeighborCells: CLOSE(pentagons,1) at res {0,1,2,5} x ball 2; compactCells: 7 kinds x depth 1..4 on %s roots; polygons: 5 shapes x %d anchors x 2 scales x res {1,3,5,7,0,2(,4,9)} x (legacy, experimental x 6 flag values, size x 6)",
-             mc_thorough ? ",3,7,11,15" : "", mc_thorough ? "30" : "12", g_npa);
-    static const int dres[] = {0, 1, 2, 5, 9, 13, 3, 7, 11, 15};
-    for (int ri = 0; ri < (mc_thorough ? 10 : 6); ri++) {
+    snprintf(mc_bounds, sizeof mc_bounds, "fault bound: every single index, every persistent-from index, every pair (n<=14); disks: CLOSE(pentagons,2)+hexagons at %s x k 1..%d x distances NULL/non-NULL; "
+             "areNeighborCells: CLOSE(pentagons,1) at %d resolutions x ball 2; compactCells: 7 kinds x depth 1..%d on 36 roots (12 base cells x res 0,5,10); polygons: %d shapes x %d anchors x %d scales x %d resolutions x (legacy, experimental x 6 flag values, size x 6)",
+             mc_thorough ? "all 16 resolutions" : "res {0,1,2,5,9,13,3,7,11,15}", mc_thorough ? 7 : 5, mc_thorough ? 16 : 8, mc_thorough ? 5 : 4, mc_thorough ? 11 : 6, g_npa, mc_thorough ? 3 : 2, mc_thorough ? 13 : 8);
+    static const int dres[] = {0, 1, 2, 5, 9, 13, 3, 7, 11, 15, 4, 6, 8, 10, 12, 14};
+    for (int ri = 0; ri < (mc_thorough ? 16 : 10); ri++) {
         U64Vec p = {0};
         dom_pent(dres[ri], 0, &p);
         dom_close1(&p);
@@ -355,7 +355,7 @@ int main(int argc, char **argv) {
     }
     mc_phase("gridDisk / gridDiskDistances", ph_disk, NULL);
     g_dom.n = 0;
-    for (int ri = 0; ri < 4; ri++) {
+    for (int ri = 0; ri < (mc_thorough ? 16 : 8); ri++) {
         U64Vec p = {0};
         dom_pent(dres[ri], 0, &p);
         dom_close1(&p);
@@ -370,9 +370,7 @@ int main(int argc, char **argv) {
         for (int i = 0; i < 12; i++)
             for (int r = 0; r <= 10; r += 5) {
                 uv_push(&g_dom, spec_mk(r, bcs[i], d));
-                if (!mc_thorough && i >= 4) break;
             }
-        if (!mc_thorough) g_dom.n = 12;
     }
     mc_phase("compactCells", ph_compact, NULL);
     mc_phase("polygon fills", ph_poly, NULL);
